@@ -343,6 +343,10 @@ type bindObs struct {
 }
 
 // makeTarget returns (target argument for Bind, function giving the current value for comparison / snapshot)
+// staleSalt varies what a slice target holds before the call (replay-det changes it between repetitions: the outcome of a Bind must
+// not depend on what earlier calls left in the target's backing array)
+var staleSalt int
+
 func makeTarget(c *bindCase, st reflect.Type) (any, func() any) {
 	none := func() any { return nil }
 	switch c.TK {
@@ -359,9 +363,9 @@ func makeTarget(c *bindCase, st reflect.Type) (any, func() any) {
 				}
 				switch f.Kind() {
 				case reflect.Int:
-					f.SetInt(int64(70 + i))
+					f.SetInt(int64(70 + i + staleSalt))
 				case reflect.String:
-					f.SetString("prev")
+					f.SetString("prev" + strings.Repeat("!", staleSalt%3))
 				case reflect.Bool:
 					f.SetBool(true)
 				case reflect.Float64:
@@ -628,6 +632,25 @@ func replayBind(args []string) int {
 				s.Extra["other_property_mismatches"] = intOf(s.Extra["other_property_mismatches"]) + 1
 			}
 			return
+		}
+		// a slice binding of two different blocks, the failing one first and a block that stores without error last: any block that
+		// cannot be stored makes the whole Bind fail (C15: never silently drops)
+		if c.BK == "slice" && c.NBlk == 2 && c.Expect == "error" && c.TK == "ptr-slice" {
+			ok := bcl.Block{Type: blk.Type, Name: "", Fields: map[string]any{}}
+			okAlone := bcl.SliceBinding{Value: []bcl.Block{ok}}
+			mixed := bcl.SliceBinding{Value: []bcl.Block{blk, ok}}
+			t1, _ := makeTarget(&c, st)
+			t2, _ := makeTarget(&c, st)
+			var e1, e2 error
+			func() {
+				defer func() { recover() }()
+				e1 = bcl.Bind(t1, okAlone)
+				e2 = bcl.Bind(t2, mixed)
+			}()
+			if e1 == nil && e2 == nil && mine("nil-for-error") {
+				s.bad("a slice binding whose first block cannot be stored returns nil because its last block can", "nil-for-error", raw, map[string]string{"blocks": fmt.Sprintf("%+v", mixed.Value)}, true)
+				return
+			}
 		}
 		// the same through BCL text and Unmarshal (C05), where the binding can be written as a program
 		if c.BK == "nil" || c.NBlk == 0 {
